@@ -5,6 +5,7 @@ from .compdb import AnalysisBroken
 from .facts import relpath
 
 VERIF = os.path.dirname(os.path.dirname(os.path.abspath(__file__)))
+EVDIR = os.environ.get("VERIF_EVIDENCE_DIR") or os.path.join(VERIF, "evidence")
 
 TRUSTED_BASE = [
     "clang 14 front end and clang::CFG builder (parse of /repo with the real build's -D/-I flags)",
@@ -103,7 +104,7 @@ class Check:
         known_keys = {e["key"]: e for e in self.known if e.get("status") == "known"}
         reported = []
         seen = set()
-        vdir = os.path.join(VERIF, "evidence", "violations")
+        vdir = os.path.join(EVDIR, "violations")
         new = 0
         for o in viol:
             ident = (o["key"], o["config"])
@@ -174,8 +175,8 @@ class Check:
             "wall_s": round(time.time() - self.t0, 2),
             "violations": len(reported),
         }
-        os.makedirs(os.path.join(VERIF, "evidence"), exist_ok=True)
-        with open(os.path.join(VERIF, "evidence", "%s.json" % self.pid), "w") as fh:
+        os.makedirs(EVDIR, exist_ok=True)
+        with open(os.path.join(EVDIR, "%s.json" % self.pid), "w") as fh:
             json.dump(ev, fh, indent=1)
         print("%s %s: %d obligations, %d discharged, %d rule instances, %d units, %d functions, %.1fs" % (
             self.pid, self.tier, n_ob, n_ok, distinct, self.units, len(self.functions),
